@@ -102,7 +102,9 @@ def _set_value(code, v2):
         if lo is None:
             c.float('value')
         else:
-            c.int('value')
+            # every in-range value of every type and out-of-range values up to +-2**66; the bound keeps integer <-> float
+            # conversions (should the code introduce any) within reach of the bit-vector lowering
+            c.int('value', -2 ** 66, 2 ** 66)
         c.call((param, 'set_value'), 'grp.par', c.get('value'))
         if lo is None:
             ok = "fits_f32(value)" if fmt == '<f' else 'True'
@@ -209,6 +211,12 @@ def one_at_a_time(c):
     c.ensure('notification-updates-cache-without-release', "param.values['g']['a'] == str(dev_a2) and upd.wait_lock.locked() and len(sent('cb_a')) == 2")
     deliver(c, cf, 2, "pack('<HB', id2, vc)")
     c.ensure('all-done', "not upd.wait_lock.locked() and param.values['h']['c'] == str(vc) and upd.request_queue.qsize() == 0")
+    # a late duplicate of the last reply (with whatever value) while the updater is idle is delivered to nobody
+    c.int('late', 0, 255)
+    c.require('late != vc')
+    c.reset_trace()
+    deliver(c, cf, 2, "pack('<HB', id2, late)")
+    c.ensure('late-duplicate-not-delivered-again', "len(calls('cb_')) == 0 and param.values['h']['c'] == str(vc) and not upd.wait_lock.locked()")
 
 
 MISC = {'persistent_get_state': 4, 'persistent_store': 3, 'persistent_clear': 5, 'get_default_value': 6}
